@@ -512,6 +512,20 @@ theorem C11_entry_into_mut (f : Forest) (hi : f.Inv) (k : Forest.MapKind) (e key
   rw [C11_entry_into_mut_eq]
   exact C11_get_mut f hi k e key new he hm
 
+/-- The read accessors of the entry API.  `entry(key)` is `Occupied` exactly when the reference map
+    contains the key, `Vacant` otherwise, and carries that key (`Entry::key`, `OccupiedEntry::key`,
+    `VacantEntry::key`); on an occupied entry `get` / `get_mut` / `into_mut` (`get…(key).unwrap()`) do
+    not panic and see the reference value.  No hypothesis. -/
+theorem C11_entry_key_get (f : Forest) (k : Forest.MapKind) (e key : Nat) :
+    (f.mapEntry k e key = (if omContainsKey (abs k f e) key then .occupied key else .vacant key)) ∧
+    (omContainsKey (abs k f e) key = true →
+      f.occGetMut k e key = .ok ∧ (f.mapGet k e key).map payloadOf = omGet (abs k f e) key) := by
+  have hc := containsKey_eq f k e key
+  have hg := get_eq f k e key
+  unfold Forest.mapEntry Forest.occGetMut Forest.mapGet
+  rw [← hc, ← hg]
+  cases hn : f.mapGetNode k e key <;> simp
+
 /-! ### Serialisation order -/
 
 /-- What the serialisers iterate for an element (`gen_outputs`: `xot.namespaces(node)` then
